@@ -80,7 +80,6 @@ for pid in ALL:
         })
     else:
         m["not_applicable"].append({"property_id": pid, "reason": "engine designed (DESIGN.md §6) but not yet built/registered at this commit; no claim is made"})
-if not m["not_applicable"]:
-    del m["not_applicable"]
+
 json.dump(m, open("/verif/MANIFEST.json", "w"), indent=1)
 print("checks:", len(m["checks"]), "not_applicable:", len(m["not_applicable"]))
